@@ -101,12 +101,26 @@ def c03_2(ck, prog):
         key = 'bus_dispatch:set_sender@%s' % estr(a)[:40]
         ok = False
         why = ''
+
+        def literal_ok(s):
+            return s.startswith(':') and not re.match(r'^:\d+\.\d+$', s)
         if a.get('k') == 'str':
             s = a['v']
-            if s.startswith(':') and not re.match(r'^:\d+\.\d+$', s):
+            if literal_ok(s):
                 ok = True
             else:
                 why = 'literal sender %r is not a reserved non-minted unique-name form' % s
+        elif is_ref(a) and ctx.origin_call(a) is None and a.get('kind') == 'local':
+            # a variable that may hold the placeholder literal: every definition of it must be one of the
+            # two accepted forms
+            defs = [rhs for b, i, ev2 in fn.events() for l, h, rhs in written_lvalues(ev2)
+                    if is_ref(l) and l.get('id') == a.get('id') and rhs is not None]
+            ok = bool(defs) and all(
+                d.get('k') == 'str' and literal_ok(d['v']) or
+                is_call(d, 'bus_connection_get_name') and lib.arg_is_param(d, 0, 'connection') for d in defs)
+            if not ok:
+                why = 'sender variable %s has a definition that is neither bus_connection_get_name(connection) ' \
+                      'nor the reserved placeholder' % estr(a)
         else:
             o = ctx.origin_call(a)
             if o and o[1] == 'result':
